@@ -8,7 +8,9 @@ MCCleanOf(f) == "fxclean:" \o f
 \*           f_bad (setUp fails after adding detail "fxd"), f_cr (cleanUp raises an error)
 MCFixtureSetUpFails(f) == f = "f_bad"
 MCFixtureCleanKind(f) == IF f = "f_cr" THEN "err" ELSE None
-MCFixtureDetails(f) == IF f = "f_tb" THEN {Name("traceback", 0)} ELSE {Name("fxd", 0)}
+MCFixtureDetails(f) == CASE f = "f_tb" -> {Name("traceback", 0)}
+                         [] f = "f_two" -> {Name("traceback", 0), Name("traceback", 1)}
+                         [] OTHER -> {Name("fxd", 0)}
 \* mismatches: m0 carries no details, m1 a detail "diff", m2 details named "traceback" and "Failed expectation"
 MCMismatchDetails(m) == CASE m = "m0" -> {}
                           [] m = "m1" -> {Name("diff", 0)}
@@ -18,6 +20,7 @@ KindsCore == {"fail", "err", "skip", "xfail", "uxs", "ki"}
 KindsAll == AllKinds
 NamesNone == {}
 Kinds6 == {"fail", "err", "skip", "xfail", "ki", "custom"}
+KindsTriple == {"ki", "err", "skip", "fail", "xfail"}
 Kinds4 == {"fail", "skip", "xfail", "ki"}
 KindsTwo == {"fail", "skip"}
 NamesMid == {Name("traceback", 0), Name("traceback", 1), Name("Failed expectation", 0)}
